@@ -1,14 +1,16 @@
 /-! C18 model (ohkami/src/ohkami/mod.rs, `mod sync`): the interrupt handler against `UntilInterrupt::poll` over the two
 atomics CATCH / WAKER, with a reactor that may wake the accept loop at any time (a connection arrives, or spuriously);
+connections that arrive at any time;
 and the `WaitGroup` counter on which `howl` waits. -/
 namespace Ohkami.Shutdown2
 
 /-- handler: h0 `CATCH.store(true)`; h1 `w := WAKER.swap(null)`; h2 `if w != null { wake }` -/
 inductive HPc where | h0 | h1 | h2 | hDone
 deriving DecidableEq, Repr
-/-- poll: p1 inner future polled (Pending), about to load CATCH; p2 loaded `false`, about to swap the waker in;
-p3 waker published, about to re-check CATCH (the repair); pending: returned `Pending`; returnedNone: returned `Ready(None)` -/
-inductive PPc where | p1 | p2 | p3 | pending | returnedNone
+/-- poll: p0 the poll begins: look at CATCH (since the repair `flagFirst`), then poll `accept()`; p1 `accept()` was `Pending`, about to load CATCH;
+p2 loaded `false`, about to swap the waker in; p3 waker published, about to re-check CATCH (the repair `fixed`); pending: returned `Pending`;
+returnedNone: returned `Ready(None)` -/
+inductive PPc where | p0 | p1 | p2 | p3 | pending | returnedNone
 deriving DecidableEq, Repr
 
 structure St where
@@ -18,16 +20,19 @@ structure St where
   hpc : HPc
   ppc : PPc
   wakePending : Bool      -- the task has been woken and will be polled again
+  conn : Bool             -- a connection is waiting to be accepted
 deriving DecidableEq, Repr
 
-/-- the first poll has begun, the handler has not started -/
-def init : St := ⟨false, false, false, .h0, .p1, false⟩
+/-- the first poll begins, the handler has not started -/
+def init : St := ⟨false, false, false, .h0, .p0, false, false⟩
 
-inductive Who where | handler | poller | reactor
+inductive Who where | handler | poller | reactor | arrive
 deriving DecidableEq, Repr
 
-/-- `fixed = true`: the code with the re-check after publishing the waker; `false`: the code as it was -/
-def step (fixed : Bool) (s : St) : Who → Option St
+/-- `fixed = true`: the code with the re-check after publishing the waker; `false`: the code as it was.
+    `flagFirst = true`: the poll looks at CATCH before it polls `accept()`; `false`: the code as it was (a ready connection is taken
+    without a look at the flag) -/
+def step (fixed flagFirst : Bool) (s : St) : Who → Option St
   | .handler =>
     match s.hpc with
     | .h0 => some { s with catch_ := true, hpc := .h1 }
@@ -36,36 +41,59 @@ def step (fixed : Bool) (s : St) : Who → Option St
     | .hDone => none
   | .poller =>
     match s.ppc with
+    | .p0 =>
+      if flagFirst && s.catch_ then some { s with ppc := .returnedNone }
+      else if s.conn then some { s with conn := false, ppc := .p0 }        -- `Ready(Some(connection))`: a session is spawned, the loop polls again
+      else some { s with ppc := .p1 }
     | .p1 => if s.catch_ then some { s with ppc := .returnedNone } else some { s with ppc := .p2 }
     | .p2 => some { s with waker := true, ppc := if fixed then .p3 else .pending }
     | .p3 => if s.catch_ then some { s with ppc := .returnedNone } else some { s with ppc := .pending }
-    | .pending => if s.wakePending then some { s with wakePending := false, ppc := .p1 } else none
+    | .pending => if s.wakePending then some { s with wakePending := false, ppc := .p0 } else none
     | .returnedNone => none
   | .reactor =>
-    -- a connection arrives (the accept future wakes the task; the loop then polls a fresh `until_interrupt`) or a spurious wake
+    -- a spurious wake
     match s.ppc with
     | .pending => if s.wakePending then none else some { s with wakePending := true }
     | _ => none
+  | .arrive =>
+    -- a connection arrives; `accept()` registered the task's waker when it was polled `Pending`, so the task is woken from then on
+    if s.conn then none else
+    match s.ppc with
+    | .p0 => some { s with conn := true }
+    | .returnedNone => some { s with conn := true }
+    | _ => some { s with conn := true, wakePending := true }
 
-def reach (fixed : Bool) : Nat → List St → List St
+def reach (fixed flagFirst : Bool) : Nat → List St → List St
   | 0, acc => acc
   | fuel + 1, acc =>
-    let next := acc.flatMap fun s => [step fixed s .handler, step fixed s .poller, step fixed s .reactor].filterMap id
-    reach fixed fuel ((acc ++ next).eraseDups)
+    let next := acc.flatMap fun s => [step fixed flagFirst s .handler, step fixed flagFirst s .poller, step fixed flagFirst s .reactor,
+      step fixed flagFirst s .arrive].filterMap id
+    reach fixed flagFirst fuel ((acc ++ next).eraseDups)
 
 /-- nothing that is guaranteed to happen can happen any more (the reactor is not guaranteed to act: no connection may ever arrive) -/
-def quiescent (fixed : Bool) (s : St) : Bool := (step fixed s .handler).isNone && (step fixed s .poller).isNone
+def quiescent (fixed flagFirst : Bool) (s : St) : Bool := (step fixed flagFirst s .handler).isNone && (step fixed flagFirst s .poller).isNone
 
 /-- the interrupt was delivered completely, nothing can move, and the accept loop is still waiting -/
-def lost (fixed : Bool) (s : St) : Bool := quiescent fixed s && s.hpc == .hDone && s.ppc != .returnedNone
+def lost (fixed flagFirst : Bool) (s : St) : Bool := quiescent fixed flagFirst s && s.hpc == .hDone && s.ppc != .returnedNone
 
-def closed (fixed : Bool) (l : List St) : Bool :=
-  l.all fun s => [step fixed s .handler, step fixed s .poller, step fixed s .reactor].all fun o =>
+def closed (fixed flagFirst : Bool) (l : List St) : Bool :=
+  l.all fun s => [step fixed flagFirst s .handler, step fixed flagFirst s .poller, step fixed flagFirst s .reactor, step fixed flagFirst s .arrive].all fun o =>
     match o with | some s' => l.contains s' | none => true
 
-inductive Reachable (fixed : Bool) : St → Prop
-  | init : Reachable fixed init
-  | step (s s' : St) (w : Who) : Reachable fixed s → step fixed s w = some s' → Reachable fixed s'
+inductive Reachable (fixed flagFirst : Bool) : St → Prop
+  | init : Reachable fixed flagFirst init
+  | step (s s' : St) (w : Who) : Reachable fixed flagFirst s → step fixed flagFirst s w = some s' → Reachable fixed flagFirst s'
+
+/-- the accept loop under load: before each of its steps a connection may arrive (`true` in the pattern) -/
+def runLoad (fixed flagFirst : Bool) : St → List Bool → St
+  | s, [] => s
+  | s, b :: rest =>
+    let s := if b then (step fixed flagFirst s .arrive).getD s else s
+    runLoad fixed flagFirst ((step fixed flagFirst s .poller).getD s) rest
+
+def patterns : Nat → List (List Bool)
+  | 0 => [[]]
+  | n + 1 => (patterns n).flatMap fun p => [true :: p, false :: p]
 
 /-! ### WaitGroup -/
 inductive WOp where | add | done | poll
